@@ -185,7 +185,7 @@ theorem negObj_sim (hyp : RepIndep sp HS HA) (r : Ref) :
   · simp only [h1, h2]; sim_same hi
   · simp only [h1, h2]
     cases hv with
-    | inf => exact Sim.raise (HS := HS) (HA := HA) (α := Ref) (β := Ref) (R := fun a b => a = b) _ h ah hi
+    | inf => exact Sim.pure (HS := HS) (HA := HA) (R := fun (a b : Ref) => a = b) rfl h ah hi
     | @jac P t g hs =>
       exact alloc_sim (Rel.pj (o := ⟨pjNeg P, []⟩) (hyp.hs_neg hs)) h ah hi
     | aff ha => exact absurd h2 (hpre _ _)
